@@ -2,6 +2,7 @@ import WK.Spec.C31
 import WK.Model.C31
 import WK.Proofs.C31_judge
 import WK.Proofs.C31_retry
+import WK.Proofs.C31_packing
 import WK.Gen.C31
 /-
   C31 — Online delivery preserves per-channel order and recipient coverage.
@@ -733,5 +734,71 @@ theorem c31_channel_order_seq {shardOf : Nat → Nat} {st : QSt} (h : QReach sha
   have h1 : ((chanSerials c st.out).map seqOf).Pairwise (· ≤ ·) :=
     List.Pairwise.map seqOf (fun a b hab => hmono a b hab) (c31_channel_order h c)
   exact ⟨h1, fun sub hs => h1.sublist hs⟩
+
+/-! ## plan packing and processing, on every accepted trace -/
+
+/-- Plan packing and processing, judged.  On every trace the judge accepts:
+    (1) the plans handed to Online Delivery for a message never contain a recipient more
+        often than the message lists it (no invented, no duplicated recipient) — at any time;
+    and, once the end-of-run check after a clean Stop has passed,
+    (2) unless a plan of the message was rejected (runtime closing), every recipient is
+        packed exactly as often as the message lists it — each recipient is in exactly one
+        plan when the list has no duplicates;
+    (3) every admitted target batch of the message got its presence answer, i.e. every
+        admitted plan was processed before Stop returned — the trace-level counterpart of
+        the model's `c31_stop_quiescent`, and the premise under which `c31_accept_cover_once`
+        speaks about ALL recipients of the message. -/
+theorem c31_accept_packing (w : World) (rm : Nat) (tr : List Ev) (j : J)
+    (hr : runJ { world := w, retryMax := rm } tr = .ok j) :
+    (∀ m ch seq mode frm sn ss recips, Ev.msg m ch seq mode frm sn ss recips ∈ tr →
+      ∀ u, (packedPairs tr).count (m, u) ≤ recips.count u) ∧
+    (j.stopOk = true → finalJ j = .ok () →
+      ∀ m ch seq mode frm sn ss recips, Ev.msg m ch seq mode frm sn ss recips ∈ tr →
+        (m ∉ rejectedMsgs tr → ∀ u, (packedPairs tr).count (m, u) = recips.count u) ∧
+        (presAnswers tr).count m = (acceptedBatches tr).count m) := by
+  have hI := runJ_pinv tr [] _ j (pinv_init w rm) hr
+  simp only [List.nil_append] at hI
+  refine ⟨?_, ?_⟩
+  · intro m ch seq mode frm sn ss recips hm u
+    obtain ⟨i, hi, hrc⟩ := hI.hmsg _ _ _ _ _ _ _ _ hm
+    rw [← hI.hpk, ← hrc]; exact hI.hbound m i u hi
+  · intro hs hf m ch seq mode frm sn ss recips hm
+    obtain ⟨i, hi, hrc⟩ := hI.hmsg _ _ _ _ _ _ _ _ hm
+    have hmem := lookup_mem _ _ _ hi
+    unfold finalJ at hf
+    simp only [hs, Bool.not_true, Bool.false_eq_true, if_false] at hf
+    split at hf
+    · cases hf
+    · rename_i hpack
+      split at hf
+      · cases hf
+      · rename_i hproc
+        refine ⟨?_, ?_⟩
+        · intro hrej u
+          have h1 := hpack
+          simp only [List.any_eq_true, not_exists, not_and, Bool.and_eq_true, Bool.not_eq_true'] at h1
+          have h2 := h1 (m, i) hmem
+          have hnr : j.rejected.contains m = false := by
+            simp only [List.contains_eq_mem, decide_eq_false_iff_not]
+            exact fun hin => hrej ((hI.hrej m).mp hin)
+          rw [← hI.hpk, ← hrc]
+          by_cases hu : u ∈ i.recips
+          · have h3 := h2 hnr
+            simp only [not_exists, not_and] at h3
+            have := h3 u hu
+            simpa using this
+          · have := hI.hbound m i u hi
+            rw [List.count_eq_zero.mpr hu] at this ⊢
+            omega
+        · have h1 := hproc
+          simp only [List.any_eq_true, not_exists, not_and] at h1
+          have := h1 (m, i) hmem
+          rw [← hI.hprs, ← hI.henq]
+          simpa using this
+
+example : ∃ j, runJ { world := [(1, [(1, 11)]), (2, [])], retryMax := 2 }
+    [.msg 1001 1 1 1 0 0 0 [1, 2], .enq 1001 true [(0, [1])], .enq 1001 true [(0, [2])], .pres 1001 0 true [1], .pres 1001 0 true [2],
+     .offline 1001 [2], .write 1001 1 1 11 1, .stopRet true] = .ok j ∧ j.stopOk = true ∧ finalJ j = .ok () := ⟨_, rfl, rfl, rfl⟩
+example : (runJ {} [.msg 1001 1 1 1 0 0 0 [1], .enq 1001 true [(0, [1, 1])]]).toBool = false := by decide
 
 end WK.C31
